@@ -30,6 +30,7 @@ PROP = 18
 FN_PF = 1        # parallel_function
 FN_PE = 2        # parallel_execute
 FN_PP = 3        # record_processing.pre_process_sequences (both uses of parallel_function)
+FN_IDS = 4       # the identifier block of pre_process_sequences (duplicate pass, fix_record_name_id loop, sanitise batch)
 SPEC_OFFSET = 10
 
 E_RUNTIME = common.ERR["RuntimeError"]
@@ -450,7 +451,7 @@ def run_preproc(spec):
     opts = spec["opts"]
     update_config({"cpus": spec["cfg"], "minlength": opts["minlength"], "limit": opts["limit"],
                    "limit_to_record": opts["target"], "reuse_results": opts["reuse"],
-                   "skip_sanitisation": opts["skip_sanitisation"], "allow_long_headers": False,
+                   "skip_sanitisation": opts["skip_sanitisation"], "allow_long_headers": bool(opts.get("allow_long", False)),
                    "genefinding_tool": opts["tool"], "genefinding_gff3": opts["gff3"], "taxon": "bacteria",
                    "triggered_limit": False})
     idnum = {r["id"]: i + 1 for i, r in enumerate(spec["records"])}
@@ -1038,6 +1039,141 @@ def gen_pp_record(rng, i, kind, tag, gf=""):
             "skip": "preset by an earlier stage" if rng.random() < 0.06 else None}
 
 
+# ---------------------------------------------------------------- identifiers that collide AFTER rewriting
+
+ILLEGAL_ID_CHARS = """!"#$%&()*+,:;=>?@[]^`'{|}/ """      # fix_record_name_id's illegal_chars (the model reads them from the source)
+ID_WORD = "abcdefghijklmnopqrstuvwxyzABCDEFGHIJKLMNOPQRSTUVWXYZ0123456789_"
+PP_ID_DEMO = {   # the two batches of the seeded-defect demonstration C18-seed8, kept as fixed cases
+    "illegal characters": (True, ["short_one", "scaf7|len1200", "scaf7:len1200", "short_two"]),
+    "long names": (False, ["short_one", "sample_contig12.assemblyA", "NZ_AMZN01000079.1", "sample_contig12.assemblyB",
+                           "NZ_AMZN01000079.2", "short_two"]),
+}
+
+
+def _word(rng, low, high, alphabet=ID_WORD):
+    return "".join(rng.choice(alphabet) for _ in range(rng.randint(low, high)))
+
+
+def _sprinkle(rng, base, count):
+    """ base with `count` illegal characters inserted (removing them gives base back) """
+    text = base
+    for _ in range(count):
+        pos = rng.randint(0, len(text))
+        text = text[:pos] + rng.choice(ILLEGAL_ID_CHARS) + text[pos:]
+    return text
+
+
+def id_family(rng, kind):
+    """ raw record ids (distinct unless the family is about duplicates) that one rewriting rule of
+        fix_record_name_id / the duplicate pass maps to the SAME text; returns [(id, name or None)] """
+    members = rng.choice([2, 2, 3])
+    out = []
+    if kind in ("illegal", "illegal-long"):
+        # removal of the characters that are illegal in file names (after shortening when the id is long)
+        base = _word(rng, 4, 11) if kind == "illegal" else _word(rng, 18, 26)
+        seen = set()
+        while len(out) < members:
+            text = _sprinkle(rng, base, rng.choice([1, 1, 2, 3]))
+            if text not in seen:
+                seen.add(text)
+                out.append((text, None))
+        if rng.random() < 0.3:
+            out.insert(rng.randint(0, len(out)), (base, None))      # the clean text itself is an input id as well
+    elif kind == "version":
+        # RefSeq-like accession, too long only because of the version behind the dot
+        acc = "N" + rng.choice("ZCTW") + "_" + _word(rng, 4, 4, "ABCDEFGHKMNPRSTWXYZ") + f"{rng.randrange(10 ** 8):08d}"
+        acc = acc[:rng.choice([15, 16, 16])] if rng.random() < 0.8 else acc + "77"      # head of 15, 16 or 18 characters
+        for version in rng.sample("123456789", members):
+            out.append((f"{acc}.{version}", None))
+        if rng.random() < 0.3:
+            out.insert(rng.randint(0, len(out)), (acc, None))
+    elif kind == "contig":
+        # _shorten_ids: equal contig number and equal leading characters
+        number = rng.choice([rng.randint(0, 99), rng.randint(0, 99999), rng.randint(100000, 10 ** 7), 12])
+        style = rng.choice(["{p}_contig{n}.{x}", "{p}_ctg{n}_{x}", "{p}.scaffold{n}.{x}", "{p}_scaf{n} {x}", "{p} c{n} {x}",
+                            "{p}cont{n}-{x}", "{p}_{x}_contig{n}"])
+        prefix = _word(rng, 7, 12, "abcdefghijklmnopqrstuvwxyz")
+        seen = set()
+        while len(out) < members:
+            text = style.format(p=prefix, n=number, x=_word(rng, 8, 12))
+            if text not in seen:
+                seen.add(text)
+                out.append((text, None))
+    elif kind == "index":
+        # no number to parse: the record index is used, the leading characters are equal
+        prefix = _word(rng, 13, 15, "abcdefghijklmnopqrstuvwxyz")
+        for _ in range(members):
+            out.append((prefix + "-" + _word(rng, 6, 9, "abcdefghijklmnopqrstuvwxyz"), None))
+    elif kind == "duplicate":
+        # equal raw ids (the duplicate pass renames them id_0, id_1, ...), short, long, or with illegal characters
+        base = rng.choice([_word(rng, 3, 10), _word(rng, 17, 24), _sprinkle(rng, _word(rng, 4, 9), 1),
+                           "NZ_DUPL01000042.1"])
+        out = [(base, None)] * members
+        if rng.random() < 0.4:
+            out.append((base + "_0", None))        # the name the duplicate pass would hand out is taken
+    elif kind == "suffix":
+        # the replacement name prefix_0 (prefix_1, ...) is already there
+        base = _word(rng, 3, 9)
+        out = [(base, None), (base + "_0", None), (_sprinkle(rng, base, 1), None)]
+        if rng.random() < 0.5:
+            out.append((_sprinkle(rng, base, 2), None))
+        if rng.random() < 0.3:
+            out.append((base + "_1", None))
+    elif kind == "names":
+        # names are rewritten without a look at the set: equal long names, illegal characters, a name that is another id
+        long_name = _word(rng, 17, 25) + rng.choice(["", "_contig7", " c3 "])
+        first, second = _word(rng, 4, 9), _word(rng, 4, 9) + "x"
+        out = [(first, long_name), (second, long_name), (_word(rng, 5, 8) + "y", _sprinkle(rng, first, 2)),
+               (_sprinkle(rng, second, 1), second)]
+    elif kind == "only-illegal":
+        out = [(":|", None), ("|:", None)]
+    return out
+
+
+ID_FAMILY_KINDS = ["illegal", "illegal", "illegal-long", "version", "version", "contig", "contig", "index", "duplicate",
+                   "duplicate", "suffix", "names"]
+
+
+def gen_id_batch(rng, tag, max_records, allow_long=None, ids=None):
+    """ a batch of records whose ids come from one to three colliding families and a few plain ids """
+    entries = []
+    kinds = []
+    if ids is None:
+        for _ in range(rng.choice([1, 1, 2, 2, 3])):
+            kind = rng.choice(ID_FAMILY_KINDS) if rng.random() < 0.97 else "only-illegal"
+            family = id_family(rng, kind)
+            if len(entries) + len(family) > max_records and entries:
+                break
+            kinds.append(kind)
+            entries.append(family)
+        plain = [[(_word(rng, 3, 12), None)] for _ in range(rng.randint(0, 3))]
+        groups = entries + plain
+        if rng.random() < 0.5:
+            # members of a family side by side (in one chunk when the batch is large), families in random order
+            rng.shuffle(groups)
+            flat = [m for g in groups for m in g]
+        else:
+            flat = [m for g in groups for m in g]
+            rng.shuffle(flat)
+        flat = flat[:max_records]
+    else:
+        flat = [(i, "name") for i in ids]
+    records = []
+    for i, (rid, name) in enumerate(flat):
+        kind = rng.choice(["clean", "clean", "lower", "gapped", "iupac"])
+        rec = gen_pp_record(rng, i, kind, tag)
+        if not rec["cdses"]:
+            rec["cdses"] = [(3, 33, -1)] if len(rec["seq"]) >= 40 else [(0, 6, 1)]
+        rec["skip"] = None
+        if not set(rec["seq"].upper()) & set("ACGT"):
+            rec["seq"] = "ACGT" + rec["seq"][4:]
+        rec["id"] = rid
+        if name is not None:
+            rec["name"] = name
+        records.append(rec)
+    return records, kinds, (rng.random() < 0.5 if allow_long is None else allow_long)
+
+
 def gen_preproc_cases(rng, tier):
     """ pre_process_sequences itself: every batch is run with each worker count, the results are compared
         field by field with the one-worker (in-process) run and with the model """
@@ -1111,6 +1247,34 @@ def gen_preproc_cases(rng, tier):
             if opts["target"] not in ("", "no_such_record"):
                 opts["target"] = ""
         batches.append({"records": records, "opts": opts, "class": cls})
+    # identifiers that collide after rewriting: illegal characters, versions, contig names, duplicates, taken replacement
+    # names, names vs ids; both allow_long_headers settings.  Class preproc-idclash: default options, every record annotated
+    # and with real sequence (what comes back is what the identifier block produced) - compared with the model of the
+    # identifier block as well; class preproc-idopts: other options, compared across worker counts and judged by the
+    # uniqueness oracle only
+    for name, (allow_long, ids) in PP_ID_DEMO.items():
+        records, _kinds, _ = gen_id_batch(rng, "s8" + name[:1], len(ids), allow_long, ids)
+        batches.append({"records": records, "opts": dict(default, allow_long=allow_long), "class": "preproc-idclash",
+                        "families": [name]})
+    for b in range(14 if not thorough else 80):
+        records, kinds, allow_long = gen_id_batch(rng, f"i{b}", rng.choice([4, 6, 8, 8, 9 if not thorough else 17]))
+        batches.append({"records": records, "opts": dict(default, allow_long=allow_long), "class": "preproc-idclash",
+                        "families": kinds})
+    for b in range(5 if not thorough else 30):
+        records, kinds, allow_long = gen_id_batch(rng, f"j{b}", rng.choice([3, 5, 8]))
+        opts = dict(default, allow_long=allow_long)
+        opts["tool"] = rng.choice(["none", "prodigal"])
+        choice = rng.randrange(4)
+        if choice == 0:
+            opts["minlength"] = rng.choice([50, 100])
+        elif choice == 1:
+            opts["limit"] = rng.choice([1, 2, len(records)])
+        elif choice == 2:
+            for rec in records[::2]:
+                rec["cdses"] = []
+        else:
+            records[rng.randrange(len(records))]["accession"] = "ACCESSION_LONGER_THAN_16"
+        batches.append({"records": records, "opts": opts, "class": "preproc-idopts", "families": kinds})
     # an empty sequence is refused before anything is sent to a worker; the empty batch has all records skipped
     empty = gen_pp_record(rng, 0, "clean", "e")
     empty["seq"] = ""
@@ -1121,7 +1285,8 @@ def gen_preproc_cases(rng, tier):
     for b, batch in enumerate(batches):
         for k in ks:
             specs.append({"kind": "preproc", "cfg": k, "cpus": None, "timeout": None, "batch": b,
-                          "records": batch["records"], "opts": batch["opts"], "class": batch["class"]})
+                          "records": batch["records"], "opts": batch["opts"], "class": batch["class"],
+                          "families": batch.get("families", [])})
     return specs
 
 
@@ -1143,6 +1308,39 @@ def enc_pp_case(spec, res, sched1, sched2):
         for kind, w in schedule:
             flat += [kind, w]
     return flat
+
+
+def _enc_str(text):
+    return [len(text)] + [ord(c) for c in text]
+
+
+def enc_ids_case(spec, schedule):
+    """ model payload of the identifier block: cfg allow_long_headers records(id name seq) schedule """
+    flat = [PROP, FN_IDS, spec["cfg"], 1 if spec["opts"].get("allow_long") else 0, len(spec["records"])]
+    for rec in spec["records"]:
+        flat += _enc_str(rec["id"]) + _enc_str(rec.get("name", rec["id"])) + _enc_str(rec["seq"])
+    flat += [len(schedule)]
+    for kind, w in schedule:
+        flat += [kind, w]
+    return flat
+
+
+def enc_ids_out(res):
+    """ the implementation's result as the identifier block's model returns it:
+        id name original_id(option) record_index skip seq per record """
+    if res["out"][0] == 1:
+        return list(res["out"][:2])
+    out = [0, len(res["dump"])]
+    for fields in res["dump"]:
+        out += _enc_str(fields["id"]) + _enc_str(fields["name"])
+        out += [0] if fields["original_id"] is None else [1] + _enc_str(fields["original_id"])
+        out += [fields["record_index"] if fields["record_index"] is not None else 0, skip_code(fields["skip"])]
+        out += _enc_str(fields["seq"])
+    return out
+
+
+def ascii_ids(spec):
+    return all(ord(c) < 128 for rec in spec["records"] for c in rec["id"] + rec.get("name", ""))
 
 
 def hash_dir(entry):
@@ -1190,16 +1388,41 @@ RULE = ("real multiprocessing pools: worker counts 1..16 (quick: 1,2,3,4,5,8,13,
         "gene finder that finds nothing or raises) run with 1, 2, 4 (thorough 1,2,3,4,8,16) configured workers; every result is "
         "compared FIELD BY FIELD (id, name, description, seq, skip, record_index, original_id, annotations, features, CDS names, "
         "topology, transl_table) with the one-worker in-process run, and - for batches inside the model's guard (unique ids/names of "
-        "at most 16 characters) - with the Gallina model of the pipeline under LIFO and random schedules of both pools.  cassis "
+        "at most 16 characters) - with the Gallina model of the pipeline under LIFO and random schedules of both pools.  IDENTIFIERS: "
+        "batches whose record ids/names COLLIDE AFTER each rewriting rule of fix_record_name_id and the duplicate pass (families of 2-3 "
+        "distinct ids differing only in illegal characters, short and longer than 16; versioned accessions X.1/X.2/X.3 with heads of "
+        "15/16/18 characters, with and without the bare accession; contig/scaffold/cNN names with equal number - below and above "
+        "99999 - and equal leading characters; long names without a number (record index); equal raw ids, also long / with illegal "
+        "characters / with the replacement id_0 already present; base, base_0 and ids stripping to base; long or illegal names, names "
+        "equal to another record's id; ids of illegal characters only), families side by side or shuffled among plain ids, BOTH "
+        "allow_long_headers settings, the two batches of the seeded defect C18-seed8 as fixed cases; every run is compared field by "
+        "field (id, name, original_id, ...) with the in-process run, every returned list is judged by an independent oracle (ids "
+        "pairwise distinct), and - default options, annotated records - the identifier block is compared with its Gallina model "
+        "(C16's transcription of the id rules threaded through ONE set in the parent, then the sanitise batch through the pool model) "
+        "under LIFO and random schedules and judged by ids_spec_ok (= in-process result of the model and ids distinct).  cassis "
         "run_meme/run_fimo (callers of parallel_execute) with stub executables on PATH for 1, 2, 4 workers against an independent "
         "expectation (sum of return codes, files made).  non-trivial = pool case (effective cpus > 1) with at least two chunks, or "
-        "a raising/timeout/crash case, or a pre-processing batch of >= 2 records with > 1 worker; distinct by flat encoding "
+        "a raising/timeout/crash case, or a pre-processing / identifier batch of >= 2 records with > 1 worker; distinct by flat encoding "
         "(schedule included)")
 
 
 def describe(flat):
-    doc = {"function": {1: "parallel_function", 2: "parallel_execute", 3: "pre_process_sequences"}.get(flat[1], flat[1]),
+    doc = {"function": {1: "parallel_function", 2: "parallel_execute", 3: "pre_process_sequences",
+                        4: "pre_process_sequences (identifier block)"}.get(flat[1], flat[1]),
            "payload": flat[2:]}
+    if flat[1] == FN_IDS:
+        try:
+            pos, ids = 5, []
+            for _ in range(flat[4]):
+                texts = []
+                for _field in range(3):
+                    texts.append("".join(chr(c) for c in flat[pos + 1:pos + 1 + flat[pos]]))
+                    pos += 1 + flat[pos]
+                ids.append({"id": texts[0], "name": texts[1], "seq": texts[2][:30]})
+            doc.update({"config_cpus": flat[2], "allow_long_headers": bool(flat[3]), "records": ids})
+            del doc["payload"]
+        except (IndexError, TypeError, ValueError):
+            pass
     if flat[1] in (FN_PF, FN_PE):
         try:
             pos = 4
@@ -1238,6 +1461,7 @@ def run(chk):
             if spec.get("go") and os.path.exists(spec["go"]):
                 os.unlink(spec["go"])
     cases, impl_outs, meta, planned = [], [], [], []
+    id_cases, id_outs, id_meta = [], [], []
     variants = 20 if chk.tier == "quick" else 30
     # pre_process_sequences: every worker count against the in-process (one worker) run, field by field
     reference = {spec["batch"]: res for spec, res in zip(specs, results) if spec["kind"] == "preproc" and spec["cfg"] == 1}
@@ -1262,9 +1486,56 @@ def run(chk):
                                                         "boundary unchanged / same result for every worker count)",
                            "input": {"records": spec["records"], "options": spec["opts"], "workers": spec["cfg"]},
                            "difference": diff, "implementation": res["out"][:40], "in_process": ref["out"][:40]})
+        # independent oracle on every returned list (sanitisation on): the record ids are pairwise distinct
+        checking = not (spec["opts"]["reuse"] or spec["opts"]["skip_sanitisation"])
+        if checking and res["out"][0] == 0 and isinstance(res["dump"], list):
+            ids_back = [f.get("id") for f in res["dump"]]
+            chk.count("preproc_runs_judged_by_the_uniqueness_oracle")
+            rewritten = sum(1 for f in res["dump"] if f.get("original_id"))
+            chk.count("preproc_records_with_rewritten_id", rewritten)
+            if len(set(ids_back)) != len(ids_back):
+                twice = sorted({i for i in ids_back if ids_back.count(i) > 1})
+                chk.violation("counterexample", f"pre_process_sequences with {spec['cfg']} workers returns records with "
+                              f"the same id {twice[:3]} (in-process: "
+                              f"{[f.get('id') for f in ref['dump']] if isinstance(ref['dump'], list) else ref['dump']})"[:400],
+                              {"theorem_or_correspondence": "C18_preprocess_ids_unique / C18_preprocess_ids_workers_irrelevant "
+                                                            "(ids, names and original ids come back as the in-process run "
+                                                            "hands them out, for every worker count)",
+                               "input": {"records": spec["records"], "options": spec["opts"], "workers": spec["cfg"]},
+                               "ids_returned": ids_back,
+                               "ids_in_process": [f.get("id") for f in ref["dump"]] if isinstance(ref["dump"], list) else ref["dump"],
+                               "implementation": res["out"][:40]})
+        for fam in spec.get("families", ()):
+            chk.count("id_family_" + fam.replace(" ", "_"))
+        if spec["class"] in ("preproc-idclash", "preproc-idopts"):
+            chk.count("id_batches_allow_long_headers_" + ("on" if spec["opts"].get("allow_long") else "off"))
+        if spec["class"] == "preproc-idclash" and ascii_ids(spec):
+            # the identifier block against its model (fn 4) and its decidable specification (fn 14)
+            n = len(spec["records"])
+            nchunks = len(chunk_bounds(n, spec["cfg"])) if (spec["cfg"] > 1 and n != 1) else 0
+            scheds = [("lifo", lifo_schedule(spec["cfg"], nchunks))] if nchunks else [("none", [])]
+            if nchunks:
+                for _ in range(2 if chk.tier == "quick" else 4):
+                    scheds.append(("random", random_schedule(rng, spec["cfg"], nchunks, 0)))
+            for name, sched in scheds:
+                flat = enc_ids_case(spec, sched)
+                id_cases.append(flat)
+                id_outs.append(enc_ids_out(res))
+                id_meta.append((spec, name))
+                chk.count("schedule_" + name)
+                sample = None
+                if name == "lifo" and spec["cfg"] > 1 and sum(1 for sp in chk.samples if sp.get("class") == "preproc-idclash") < 2 \
+                        and isinstance(res["dump"], list) and any(f.get("original_id") for f in res["dump"]):
+                    sample = {"class": "preproc-idclash", "workers": spec["cfg"], "allow_long_headers": spec["opts"].get("allow_long"),
+                              "ids_in": [r["id"] for r in spec["records"]], "ids_out": [f["id"] for f in res["dump"]],
+                              "names_out": [f["name"] for f in res["dump"]],
+                              "original_ids_out": [f["original_id"] for f in res["dump"]]}
+                    chk.samples.insert(0, sample)
+                chk.note_case(flat, spec["cfg"] > 1 and n >= 2, None)
+            continue
         if spec["class"] != "preproc":
             chk.note_case([PROP, FN_PP, spec["cfg"], spec["batch"]], spec["cfg"] > 1)
-            continue        # outside the model's guard (id rewriting): compared across worker counts only
+            continue        # outside the guard of the pipeline model: compared across worker counts (and uniqueness) only
         n = len(spec["records"])
         nchunks = len(chunk_bounds(n, spec["cfg"])) if spec["cfg"] > 1 else 0
         pairs = [("lifo", lifo_schedule(spec["cfg"], nchunks), lifo_schedule(spec["cfg"], nchunks))] if nchunks else \
@@ -1372,6 +1643,32 @@ def run(chk):
     model_outs = common.correspondence(chk, cases[:npp], impl_outs[:npp], spec_fn_offset=None, describe=describe,
                                        label="pre_process_sequences pipeline: model vs implementation")
     model_outs += common.correspondence(chk, cases[npp:], impl_outs[npp:], spec_fn_offset=SPEC_OFFSET, describe=describe)
+    # the identifier block of pre_process_sequences: model (fn 4) vs implementation; on a disagreement the decidable
+    # specification (fn 14: equal to the in-process result of the model, ids pairwise distinct) looks for a failing input
+    id_model_outs = common.correspondence(chk, id_cases, id_outs, spec_fn_offset=None, describe=describe,
+                                          label="pre_process_sequences identifier block (duplicate pass, fix_record_name_id "
+                                                "loop in the parent, sanitise batch): model vs implementation")
+    if id_cases:
+        id_verdicts = common.run_driver([[c[0], c[1] + SPEC_OFFSET] + c[2:] + o for c, o in zip(id_cases, id_outs)])
+        for i, verdict in enumerate(id_verdicts):
+            chk.count("id_block_outputs_judged_by_ids_spec_ok")
+            if verdict[:1] != [1]:
+                spec, _name = id_meta[i]
+                own = enc_ids_out(reference[spec["batch"]])
+                if id_outs[i] == own and (own[0] == 1 or len({f["id"] for f in reference[spec["batch"]]["dump"]}) == own[1]):
+                    # equal to the implementation's OWN in-process result, ids distinct: the property holds on this input;
+                    # the output differs from the model's, which the correspondence above reports (broken correspondence
+                    # of the identifier model), not a failing input of this property
+                    chk.count("id_block_spec_verdict_false_but_equal_to_own_in_process_run")
+                    continue
+                chk.violation("counterexample", f"pre_process_sequences with {spec['cfg']} workers: ids/names/original ids differ "
+                              "from the in-process result of the identifier block or are not unique (ids_spec_ok false)",
+                              {"theorem_or_correspondence": "C18_preprocess_ids_workers_irrelevant / C18_preprocess_ids_unique "
+                                                            "(ids_spec_ok on the implementation's output)",
+                               "input": {"records": spec["records"], "options": spec["opts"], "workers": spec["cfg"]},
+                               "flat": id_cases[i], "implementation": id_outs[i], "model": id_model_outs[i],
+                               "spec_verdict_on_implementation_output": verdict})
+                break
     # the property itself, on every implementation output (decidable specification evaluated by the model:
     # tspec_ok = the dispatcher's sequential specification with the timeout clause, independent of the worker
     # count; second number = finding class of the input)
@@ -1418,7 +1715,7 @@ def run(chk):
                               {"theorem_or_correspondence": "respects_durations (harness planning)", "flat": flat})
             if flag[1:2] == [1]:
                 chk.count("planned_schedules_timely")
-    chk.crosscheck_vm(cases, model_outs)
+    chk.crosscheck_vm(cases + id_cases, model_outs + id_model_outs)
     chk.extra["implementation_runs"] = len(specs)
     return chk.finish(RULE, trusted_extra=[
         "CPython multiprocessing.Pool semantics as recorded at the top of coq/C18/Model.v (chunking, fifo task queue, "
@@ -1439,7 +1736,11 @@ def replay(chk, path):
         res = run_impl(dict(base, cfg=inp["workers"]))
         diff = first_difference(ref["dump"], res["dump"])
         print("in-process vs", inp["workers"], "workers:", "no difference" if diff is None else json.dumps(diff, default=str))
-        return 0 if diff is None else 1
+        ids_back = [f.get("id") for f in res["dump"]] if res["out"][0] == 0 else None
+        checking = not (inp["options"].get("reuse") or inp["options"].get("skip_sanitisation"))
+        unique = ids_back is None or not checking or len(set(ids_back)) == len(ids_back)
+        print("ids returned with", inp["workers"], "workers:", ids_back, "- pairwise distinct" if unique else "- NOT pairwise distinct")
+        return 0 if diff is None and unique else 1
     if inp.get("kind") == "cassis":
         inp["dirs"] = [tuple(d) for d in inp["dirs"]]
         res = run_impl(inp)
